@@ -160,7 +160,14 @@ func Truthy(v interface{}) bool {
 }
 
 // DeepEqual is JSON deep equality (never equal across types).
-func DeepEqual(a, b interface{}) bool {
+func DeepEqual(a, b interface{}) bool { return deepEqual(a, b, 0) }
+
+// deepEqual is depth-guarded: an implementation result can be cyclic after a
+// (seeded) aliasing defect; beyond 1000 levels the values count as different.
+func deepEqual(a, b interface{}, depth int) bool {
+	if depth > 1000 {
+		return false
+	}
 	switch x := a.(type) {
 	case nil:
 		return b == nil
@@ -179,7 +186,7 @@ func DeepEqual(a, b interface{}) bool {
 			return false
 		}
 		for i := range x {
-			if !DeepEqual(x[i], y[i]) {
+			if !deepEqual(x[i], y[i], depth+1) {
 				return false
 			}
 		}
@@ -191,7 +198,7 @@ func DeepEqual(a, b interface{}) bool {
 		}
 		for k, xv := range x {
 			yv, ok := y[k]
-			if !ok || !DeepEqual(xv, yv) {
+			if !ok || !deepEqual(xv, yv, depth+1) {
 				return false
 			}
 		}
